@@ -369,7 +369,16 @@ class PipeGen:
         n = self.draw(st.integers(0, t.n + 3))
         off = self.draw(st.integers(0, t.n + 3)) if self.chance(5) else 0
         self.classes.add("slice")
-        return self.emit({"out": self.new_var(), "verb": "slice_head", "in": var, "n": n, "offset": off})
+        out = self.emit({"out": self.new_var(), "verb": "slice_head", "in": var, "n": n, "offset": off})
+        if out is not None and self.chance(3):
+            # a second slice of the same SELECT; its offset may lie beyond what the first one left
+            n2 = self.draw(st.integers(0, n + 2))
+            off2 = self.draw(st.integers(0, n + 2)) if self.chance(7) else 0
+            out2 = self.emit({"out": self.new_var(), "verb": "slice_head", "in": out, "n": n2, "offset": off2})
+            if out2 is not None:
+                self.classes.add("slice_chain")
+                return out2
+        return out
 
     def v_group_by(self, var):
         t = self.t(var)
@@ -414,6 +423,9 @@ class PipeGen:
         items, taken = [], set()
         for _ in range(k):
             name = self.new_col_name(t, taken, allow_overwrite=self.chance(3), allow_group=self.chance(2))
+            gnames = [n for n, c in t.visible if c in t.group and n not in taken]
+            if gnames and self.chance(2):
+                name = self.pick(gnames)  # a new column takes the name of a grouping column
             if any(n == name and c in t.group for n, c in t.visible):
                 self.classes.add("summarize_overwrites_key")
             taken.add(name)
@@ -668,7 +680,7 @@ class PipeGen:
                 var = v2
         return var
 
-    def expose_hidden(self, var, k=2):
+    def expose_hidden(self, var, k=2, prefer=()):
         """mutate(z=<reference to a hidden column still in scope>): makes the state of hidden columns observable."""
         t = self.t(var)
         vis = {c for _, c in t.visible}
@@ -679,9 +691,11 @@ class PipeGen:
                 cands.append(ref)
         if not cands:
             return var
+        cid_of = {(r["v"], r["n"]): c for r, c in self.scope(var).capt}
+        first = [r for r in cands if cid_of.get((r["v"], r["n"])) in set(prefer)]
         items, taken = [], set(t.names())
-        for _ in range(min(k, len(cands))):
-            ref = self.pick(cands)
+        for i in range(min(k, len(cands))):
+            ref = first[i] if i < len(first) else self.pick(cands)
             fresh = [n for n in data.NEW_NAMES + ["h1", "h2"] if n not in taken]
             if not fresh:
                 break
